@@ -11,7 +11,7 @@ pub fn run(args: &Args) {
     let bias = Bias { tiny_swaps: false, spreads: false, toggles: false };
     for c in 0..args.n {
         let len = 5 + rng.below(25) as usize;
-        let case = gen_case(&mut rng, len, &bias);
+        let case = match std::panic::catch_unwind(std::panic::AssertUnwindSafe(|| gen_case(&mut rng, len, &bias))) { Ok(c) => c, Err(_) => { out.count("generator_panic"); continue } };
         let r = match run_case(&mut out, "C14", &case) { Some(r) => r, None => continue };
         if r.kinds_ok.len() >= 3 && r.had_remainder { out.nontrivial_key(hash_str(&case.coq())); }
         if c < 2 { out.sample(case.json()); }
